@@ -4,6 +4,7 @@ package main
 // The rules are the premises P1–P3 of the cursor induction in DESIGN.md §3 C03.
 
 import (
+	"fmt"
 	"go/token"
 	"go/types"
 
@@ -403,6 +404,53 @@ func checkChainAssembly(c *Check) {
 		}
 	} else {
 		c.Anchor("Flame.Use")
+	}
+
+	// the application middleware stack owns its backing array: every value stored into Flame.handlers is
+	// made here or grown from the field itself, never a slice a caller still holds (Use appends in place)
+	if fld := p.Field("flamego", "Flame", "handlers"); fld != nil {
+		var owned func(v ssa.Value, d int) bool
+		owned = func(v ssa.Value, d int) bool {
+			if d > 8 {
+				return false
+			}
+			v = strip(v)
+			if fieldOf(addrOfLoad(v)) == fld {
+				return true
+			}
+			switch x := v.(type) {
+			case *ssa.MakeSlice:
+				return true
+			case *ssa.Const:
+				return x.IsNil()
+			case *ssa.Slice:
+				return owned(x.X, d+1)
+			case *ssa.Phi:
+				for _, e := range x.Edges {
+					if !owned(e, d+1) {
+						return false
+					}
+				}
+				return true
+			case *ssa.Call:
+				return callName(&x.Call) == "builtin.append" && owned(x.Call.Args[0], d+1)
+			}
+			return false
+		}
+		n, bad := 0, 0
+		for _, u := range p.FieldUses(fld) {
+			if u.Kind != "store" {
+				continue
+			}
+			n++
+			if !owned(u.Instr.(*ssa.Store).Val, 0) {
+				bad++
+				c.Bad(p.FuncKey(u.Fn)+":handlers-owned", p.Pos(u.Instr.Pos()), "Flame.handlers is set to a slice the caller still holds ("+vstr(u.Instr.(*ssa.Store).Val)+"): a later Use() appends into the caller's backing array, so the middleware list of this (or another) instance changes behind its back")
+			}
+		}
+		if bad == 0 {
+			c.OK("flamego.Flame.handlers:owned", "flame.go", fmt.Sprintf("%d stores to Flame.handlers: each is made here or grown from the field itself", n), n)
+		}
 	}
 
 	// the route closure and the not-found closure hand their handler list to the creator and run it
